@@ -50,9 +50,13 @@ K(1)(1270)bar-{rho(770)0{pi+,pi-},K-}    2    1    0    2    0    0
 K(1)(1270)bar-[D]{K*(892)bar0{K-,pi+},pi-}    0    0.76    0.02    0    -0.33    0.02
 """,
 }
+FILES["broken-cart-1"] = """EventType D0 K- pi+ pi+ pi-
+FastCoherentSum::UseCartesian 1
+D0{K*(892)bar0{K-,pi+},rhoo(770)0{pi+,pi-}}    0    0.5    0.01    0    -0.75    0.02
+"""
 NAMES = tuple(FILES)
 RESONANCES = {
     "vv-rho": {"K*(892)bar0", "rho(770)0"}, "vv-rho-postfit": {"K*(892)bar0", "rho(770)0"}, "vv-omega": {"omega(782)0", "K*(892)bar0"}, "a1-spline": {"a(1)(1260)+", "rho(1450)0", "K(1460)bar-", "K*(892)bar0"},
-    "kmatrix-focus": {"KPi00", "PiPi00", "K*(892)bar0", "PiPi10"}, "cart-1": {"rho(770)0", "rho(1450)0"}, "cart-0-partial": {"K(1)(1270)bar-", "rho(770)0", "K*(892)bar0"},
+    "kmatrix-focus": {"KPi00", "PiPi00", "K*(892)bar0", "PiPi10"}, "cart-1": {"rho(770)0", "rho(1450)0"}, "broken-cart-1": {"K*(892)bar0", "pi0"}, "cart-0-partial": {"K(1)(1270)bar-", "rho(770)0", "K*(892)bar0"},
 }
 OPS = ("read-A", "read-G", "read-P", "cpp", "py")
